@@ -199,6 +199,30 @@ CLAIMED = {
          "under ASan+UBSan with asserts, exact-size heap windows, a watchdog and a counting allocator (leaks).",
          "Memory safety is OBSERVED on specification-generated inputs, not proved: no coverage-guided fuzzing is done (DESIGN 5).",
          "§4 C04"),
+ "C01": ("TLA+ LZ symbol semantics and LZMA2 chunk rules (EncLz.tla, EncLzma2.tla) model-checked by TLC (circular window = infinite history, "
+         "aggregate judge sound w.r.t. byte-exact judge); a TLC-generated pairwise-plus-corners covering array over the encoder option "
+         "lattice (EncoderConfig.tla) drives the real encoders; their output, tokenised by the independent glue, is validated by TLA+ trace "
+         "specifications and decoded by two independent decoders",
+         "TLC checks the LZ/LZMA2 semantics (62k / 2.4M and 57k / 530k states; a broken ring-buffer variant violates WindowEquiv) and "
+         "emits 180 / ~3000 configuration plans over 19 dimensions (13 entry points, presets, lc/lp/pb, 5 match finders, modes, nice_len, "
+         "depth, dictionary sizes, preset dictionary, checks, chains, block size, threads, flush, slicing, size-limited MicroLZMA). "
+         "1088 / 6579 (plan x input) cases are encoded by real liblzma, decoded by liblzma and tokenised by the glue; TraceEncLz / "
+         "TraceEncLzma2 expand inputs <= 400 bytes byte-exactly inside TLC and judge per-chunk aggregates otherwise; every case is re-run "
+         "with the match-finder normalisation bias (hook) and must give identical bytes.",
+         "Trusted: TLC, harness/glue range decoder (closure-tested), the guarded mf-offset hook. IA64 / RISC-V BCJ chains and inputs >= 2^31 "
+         "are not covered; the range coder's probability arithmetic is judged only through the two decoders.",
+         "§4 C01"),
+ "C02": ("Field-level .xz judge written as a TLA+ trace specification (EncXzFile.tla) over the independent glue parser's field events, plus a "
+         "transcription of the bound functions (Bound.tla) model-checked by TLC; real encoder output of the C01 covering array and "
+         "single-call encodes at bound(n) are validated",
+         "TraceEncXzFile checks every stored size, padding, CRC32, Check, Index record, Backward Size, flags, filter flags, declared "
+         "dictionary >= longest distance and the .lzma header of ~600 / 5511 real encoder outputs (19k / 384k field events); "
+         "TraceEncXzFileNeg must reject 15 glue-built single-fault files exactly at the faulty field. MCBound checks BoundSuffices / "
+         "NeverOverruns / BoundDominates over 144k parameter tuples (a floor-instead-of-ceil variant violates them); 400 / 864 real "
+         "lzma_{block,stream,easy}_buffer_encode calls at bound(n) -1/0/+4 with incompressible data are validated by TraceBound.",
+         "Trusted: TLC, harness/glue parser and CRC/SHA-256 implementations. string_conversion.c is not exercised here (C06 covers the "
+         "text form).",
+         "§4 C02"),
 }
 NA_REASON = "check not built yet in this round (planned: see DESIGN.md §4); no claim is made"
 READY_FILE = os.path.join(V, "lib", "ready.txt")   # ids whose checks have been integrated (green + mutants confirmed)
